@@ -32,11 +32,24 @@ def main():
     from emu_sv.time_evolution import EvolveStateVector
     rnd = random.Random(int(os.environ.get("VERIF_SEED", "0")))
     torch.manual_seed(0)
-    for t in range(60):
+    for t in range(90):
         n = rnd.randint(1, 3)
         om = torch.rand(n, dtype=torch.float64) * 5
         de = torch.rand(n, dtype=torch.float64) * 4 - 2
         ph = torch.rand(n, dtype=torch.float64) * rnd.choice([0.0, 3.0])
+        # boundary families: a delay (no drive at all, the interaction still acts), amplitude only,
+        # detuning only, one idle atom
+        fam = t % 6
+        if fam == 1:
+            om, de = om * 0, de * 0
+            n_fam = "delay: omega = delta = 0"
+        elif fam == 2:
+            om = om * 0
+        elif fam == 3:
+            de = de * 0
+        elif fam == 4 and n > 1:
+            om[0] = 0
+            de[0] = 0
         U = torch.rand(n, n, dtype=torch.float64) * 3
         U = (U + U.T) / 2
         U.fill_diagonal_(0)
@@ -74,7 +87,7 @@ def main():
     if not ok:
         print(f"REPRODUCED: _evolve_step(3.0, 1) handed dt={a[0]}, omega={a[1].tolist()}, matrix time {times}, tol={a[6]}")
         return 1
-    print("NOT-REPRODUCED: 60 random single steps match exp(-i dt H) psi; _evolve_step wiring as specified")
+    print("NOT-REPRODUCED: 90 single steps (random, delays, amplitude-only, detuning-only, idle atom) match exp(-i dt H) psi; _evolve_step wiring as specified")
     return 0
 
 
